@@ -1506,12 +1506,18 @@ def specials(rng):
     yield "num:Trailer.ID=[()]", render(cdoc, "table", None, objects={**eobjs, top: enc}, trailer_extra={"Encrypt": Ref(top), "ID": [b""]})
     # filter parameters beyond LZWFlateParams on a valid image
     img = bytes(12)
-    for parms, tag in (({"K": -1, "Columns": 0}, "fax-columns0"), ({"K": 0, "Columns": 2 ** 32 - 1}, "fax-columnsmax"), ({"K": -1, "Columns": 8, "Rows": 2 ** 32 - 1}, "fax-rowsmax"),
-                       ({"K": 2 ** 31 - 1, "Columns": 8}, "fax-kmax"), ({"K": -1, "Columns": 1}, "fax-columns1")):
-        for width in (0, 1, 8, 2 ** 32 - 1):
+    eofb = b"\x00\x10\x01"          # the end-of-facsimile-block code alone: every declared row is padded white by the decoder
+    for parms, tag, data in (({"K": -1, "Columns": 0}, "fax-columns0", img), ({"K": 0, "Columns": 2 ** 32 - 1}, "fax-columnsmax", img),
+                             ({"K": -1, "Columns": 8, "Rows": 2 ** 32 - 1}, "fax-rowsmax", img), ({"K": 2 ** 31 - 1, "Columns": 8}, "fax-kmax", img),
+                             ({"K": -1, "Columns": 1}, "fax-columns1", img), ({"K": 0, "Columns": 8}, "fax-k0", img), ({"K": 4, "Columns": 8, "Rows": 1}, "fax-k4", eofb),
+                             ({"K": -1, "Columns": 65535}, "fax-columns65535", img), ({"K": -1, "Columns": 65536}, "fax-columns65536", img),
+                             ({"K": -1, "Columns": 65544}, "fax-columns65544", eofb), ({"K": -1, "Columns": 8, "Rows": 65536}, "fax-rows65536", eofb),
+                             ({"K": -1, "Columns": 8, "Rows": 65535}, "fax-rows65535", eofb), ({"K": -1, "Columns": 8, "Rows": 3}, "fax-eofb-padded", eofb),
+                             ({"K": -1, "Columns": 8, "Rows": 0}, "fax-eofb-norows", eofb), ({"K": -1, "Columns": 65535, "Rows": 65535}, "fax-padding", eofb)):
+        for width in ((0, 1, 8, 2 ** 32 - 1) if tag != "fax-padding" else (8,)):
             d = {"Type": N("XObject"), "Subtype": N("Image"), "Width": parms["Columns"] if width == 8 else width, "Height": 1, "BitsPerComponent": 1, "ImageMask": True,
                  "Filter": N("CCITTFaxDecode"), "DecodeParms": parms}
-            yield "num:CCITTFaxDecodeParams:" + tag, _r(_mini({4: Stream(d, img)}, res={"XObject": {"I": Ref(4)}}))
+            yield "num:CCITTFaxDecodeParams:" + tag, _r(_mini({4: Stream(d, data)}, res={"XObject": {"I": Ref(4)}}))
     for filt in ("DCTDecode", "JPXDecode", "JBIG2Decode", "Crypt", "LZWDecode", "FlateDecode", "RunLengthDecode", "ASCII85Decode", "ASCIIHexDecode"):
         for data in (b"", b"\x00", b"\xff\xd8\xff", b"\x80", b"\x7f", b"\xfe", b"~>", b">", b"z~", b"zzzzz", b"\xff" * 64, bytes(range(256))):
             d = {"Type": N("XObject"), "Subtype": N("Image"), "Width": 1, "Height": 1, "BitsPerComponent": 8, "ColorSpace": N("DeviceGray"), "Filter": N(filt)}
@@ -1542,6 +1548,70 @@ def page_count_cases():
         o2[leaf] = {"Type": N("Page"), "Parent": Ref(2), "MediaBox": [0, 0, 9, 9], "Resources": {}}
         o2[2] = {"Type": N("Pages"), "Kids": kids[:2] + [Ref(leaf)] + kids[2:], "Count": root_count}
         yield "num:PageTree.Count-sum-leaf=%s/root=%d" % ("+".join(map(str, counts)), root_count), W.simple_file(o2, 1)[0]
+
+
+def xref_shapes():
+    """hostile shapes of the cross-reference chain itself; (tag, bytes).  /Prev cycles of length 1, 2 and 3 in classic and in
+    xref-stream form, /Prev into the middle of an object, at the `startxref` keyword, at the header, at 0 and beyond the end,
+    /XRefStm at the table itself, startxref at its own keyword.  All offsets are relative to the header (see `prefixed`)."""
+    m = _mini({})
+    ents = {n: W.Obj(v) for n, v in m.objects.items()}
+
+    def fixpoint(build, pick):
+        g = 0
+        data = b""
+        for _ in range(6):
+            data, info = build(g)
+            if pick(info) == g:
+                break
+            g = pick(info)
+        return data
+
+    for fmt in ("table", "stream"):
+        yield "cycle:prev-self:" + fmt, fixpoint(lambda g: W.write_file([W.Revision(ents, fmt=fmt, trailer={"Root": Ref(1), "Prev": g})]), lambda i: i["startxrefs"][0])
+        yield "cycle:prev-two:" + fmt, fixpoint(lambda g: W.write_file([W.Revision(ents, fmt=fmt, trailer={"Root": Ref(1), "Prev": g}),
+                                                                         W.Revision({3: W.Obj(m.objects[3])}, fmt=fmt, trailer={"Root": Ref(1)})]), lambda i: i["startxrefs"][1])
+        yield "cycle:prev-three:" + fmt, fixpoint(lambda g: W.write_file([W.Revision(ents, fmt=fmt, trailer={"Root": Ref(1), "Prev": g}),
+                                                                           W.Revision({3: W.Obj(m.objects[3])}, fmt=fmt, trailer={"Root": Ref(1)}),
+                                                                           W.Revision({2: W.Obj(m.objects[2])}, fmt=fmt, trailer={"Root": Ref(1)})]), lambda i: i["startxrefs"][2])
+        # the NEWEST section of a two-revision file names itself (the older one is never reached)
+        data, info = W.write_file([W.Revision(ents, fmt=fmt, trailer={"Root": Ref(1)}), W.Revision({3: W.Obj(m.objects[3])}, fmt=fmt, trailer={"Root": Ref(1)})])
+        sx = info["startxrefs"]
+        if fmt == "table":
+            yield "cycle:prev-newest-self:table", data.replace(b"/Prev %d" % sx[0], b"/Prev %d" % sx[1], 1) if len(b"%d" % sx[0]) == len(b"%d" % sx[1]) else data
+        base, info = W.write_file([W.Revision(ents, fmt=fmt, trailer={"Root": Ref(1), "Prev": 7777777})])
+        off = info["offsets"]
+        sxkw = base.rfind(b"startxref")
+        for name, v in (("mid-object", off[(2, 0)] + 9), ("object-start", off[(1, 0)]), ("startxref-keyword", sxkw), ("header", 0), ("eof", len(base) - 6),
+                        ("beyond-end", len(base) + 1000), ("huge", 2 ** 31 - 1), ("minus-one", -1)):
+            txt = b"%d" % v
+            yield "cycle:prev-%s:%s" % (name, fmt), base.replace(b"7777777", txt.ljust(7) if len(txt) <= 7 else txt, 1) if fmt == "table" or len(txt) <= 7 else base
+    # hybrid file whose /XRefStm is the table itself, and one whose startxref names its own keyword
+    data, info = W.write_file([W.Revision(ents, fmt="table", trailer={"Root": Ref(1), "XRefStm": 7777777})])
+    yield "cycle:xrefstm-self", data.replace(b"7777777", (b"%d" % info["startxrefs"][0]).ljust(7), 1)
+    data, info = W.write_file([W.Revision(ents, fmt="table", trailer={"Root": Ref(1)})])
+    kw = data.rfind(b"startxref")
+    tail = data[kw:]
+    yield "cycle:startxref-self", data[:kw] + re.sub(rb"startxref\s+\d+", b"startxref\n%d" % kw, tail, 1)
+    yield "cycle:startxref-header", data[:kw] + re.sub(rb"startxref\s+\d+", b"startxref\n0", tail, 1)
+
+
+PREFIXES = [("1byte", b"\n"), ("percent", b"%\n"), ("fragments", b"%PDF\n%PD F-1.4\r%pdf-1.7 PDF- %%PDF 1 0 obj\nxref\n0 1\ntrailer <<>>\nstartxref\n0\n%%EOF\n"),
+            ("700bytes", bytes((i * 37 + 11) % 251 for i in range(700)).replace(b"%", b"#")),
+            ("3KB", bytes((i * 73 + 5) % 251 for i in range(3000)).replace(b"%", b"#"))]
+
+
+def prefixed(rng):
+    """every structural hostile shape (reference cycles, cross-reference chain shapes, over-deep nesting, object-stream indices)
+    with bytes BEFORE the `%PDF-` header: offsets in such a file are relative to the header, so every place that mixes absolute
+    and header-relative positions (the /Prev loop guard, scan, object offsets, stream ranges) sees two different numbers.
+    A prefix of 1 byte, `%`, text with `%PDF` fragments (but no `%PDF-`), 700 bytes, 3 KB (beyond the header search window)."""
+    shapes = list(xref_shapes()) + [c for c in cycles(rng) if not c[0].startswith("cycle:prev-")] + list(deep(rng)) + list(objstm_index_cases())
+    for tag, data in shapes:
+        for name, pre in PREFIXES:
+            if name in ("700bytes", "3KB") and not tag.startswith(("cycle:prev", "cycle:xref", "cycle:startxref", "cycle:objstm", "cycle:length", "cycle:pages", "num:objstm")):
+                continue
+            yield "%s+prefix:%s" % (tag, name), pre + data
 
 
 def objstm_index_cases():
@@ -1576,6 +1646,8 @@ def planted(rng, tier="quick"):
     yield from deep(rng)
     yield from objstm_index_cases()
     yield from page_count_cases()
+    yield from xref_shapes()
+    yield from prefixed(rng)
     yield from specials(rng)
     for fo in FOCI:
         doc = typed_doc(rng, fo)
